@@ -144,7 +144,7 @@ def run_program(ctx, mon, oq, rng, wd, depth, names, directed=None):
                         pool.add(o, name)
                         producer[id(o)] = name
                         # views alias their source in the float program; everything else is a fresh tensor
-                        viewlike = name in programs.SHAPE_OPS or name in ("detach", "copy_", "contiguous", "to_dtype", "to_cpu")
+                        viewlike = name in programs.SHAPE_OPS or name in ("detach", "copy_", "contiguous", "to_dtype", "to_cpu")  # to_copy is fresh
                         roots[id(o)] = roots.get(id(a), id(a)) if viewlike else id(o)
                         payload[id(o)] = payload.get(id(a), id(a)) if (viewlike or name in (
                             "mul_scalar", "torch.mul_scalar", "div_scalar", "neg")) else id(o)
